@@ -221,10 +221,15 @@ Section Model.
         ++ block_diag_from (off + p) total t
     end.
   Definition mget (m : mat) (i j : nat) : T := nth j (nth i m []) z.
-  (* curvature_matrix_mirrored_from: second test wins *)
+  (* curvature_matrix_mirrored_from.  The double loop visits (i, j) and (j, i); at each visit the two conditional writes set
+     BOTH cells, first from [i, j] then from [j, i].  The last visit of a pair is the one with the larger row index, whose
+     second test reads the UPPER-triangle cell: the pair ends up with the upper value if it is non-zero, else the lower one
+     (same reading as C04's [mir]; the two only differ when both cells are non-zero and different, which the block
+     assembly never produces) *)
   Definition mirror (m : mat) : mat :=
     imap (fun i row => imap (fun j _ =>
-            if tnz K (mget m j i) then mget m j i else if tnz K (mget m i j) then mget m i j else z) 0 row) 0 m.
+            let lo := Nat.min i j in let hi := Nat.max i j in
+            if tnz K (mget m lo hi) then mget m lo hi else if tnz K (mget m hi lo) then mget m hi lo else z) 0 row) 0 m.
   (* curvature_matrix_with_added_to_diag_from *)
   Definition add_diag (eps : T) (idx : list nat) (m : mat) : mat :=
     fold_left (fun acc k => imap (fun i row => if Nat.eqb i k
